@@ -6,6 +6,7 @@
 -/
 import XotModel.Lemmas.FframeGeneralMove
 import XotModel.Lemmas.FframeGeneralMore
+import XotModel.Lemmas.FframeGeneralUnwrap
 
 namespace XotModel
 open HTree Spec PairAll
@@ -246,6 +247,22 @@ theorem frame_general {s : Store} {c : Forest.XCall} (inv : s.forest.Inv) (hw : 
         obtain ⟨t, hg⟩ := Forest.get_of_live (hla n (List.mem_singleton.2 rfl))
         exact (getFrame_wrap inv hok hg hl (ne_parent_of_not_mem_siteW hnw)
           (not_mem_handles_of_subtree hg hnm)).frameAt hl
+      | elementUnwrap n =>
+        obtain ⟨t, hg⟩ := Forest.get_of_live (hla n (List.mem_singleton.2 rfl))
+        simp only [Forest.XCall.writtenParents, List.mem_cons, List.mem_append, not_or] at hnw
+        simp only [Forest.XCall.removedHandles, List.mem_cons, not_or] at hnr
+        have hok' : (s.forest.elementUnwrap n).2 = .ok := hok
+        cases hp : s.forest.parent? n with
+        | none =>
+          have e : (Forest.XCall.run s (.call (.elementUnwrap n))).1.forest = (s.forest.remove n).1 := by
+            show (s.forest.elementUnwrap n).1 = _
+            rw [elementUnwrap_parentless hok' hp]
+          rw [e]
+          exact (getFrame_remove inv hg (by rw [hp]; intro hm; cases hm)
+            (not_mem_handles_of_subtree hg hnm)).frameAt hl
+        | some p =>
+          rw [hp] at hnw
+          exact (getFrame_unwrap_kid inv hok' hp hnw.1.1 hnw.2 hnw.1.2 hnr.2).frameAt hl
       | cloneNode n =>
         obtain ⟨t, hg⟩ := Forest.get_of_live (hla n (List.mem_singleton.2 rfl))
         exact (getFrame_cloneNode inv hg h).frameAt hl
